@@ -5,13 +5,18 @@ package main
 // One operation = one complete exchange of the REAL client (mtproto.NewMTProto + CreateConnection,
 // over a loopback TCP connection) with the independent conformant server of x_hsserver.go:
 //
-//   c06.hs <tag> <nonce> <new_nonce> <b> <padseed> <pad16> <n> <e> <d> <server_nonce> <p> <q> <g> <a> <dh_prime> <time> <spad16> <minimal> <extra fps>
+//   c06.hs <tag> <nonce> <new_nonce> <b> <padseed> <pad16> <n> <e> <d> <server_nonce> <p> <q> <g> <a> <dh_prime> <time> <spad16> <minimal> <fps>
+//
+// <fps>: the fingerprints the server lists in resPQ besides that of its own key: "-" (only its own), or a
+// comma-separated list in which "*" stands for its own (a list without "*": its own comes last) — a
+// conformant server may hold several keys and list them in any order.
 //
 // client draws: nonce (16 bytes), new_nonce (32), DH exponent b (256, big-endian) — delivered to the
 // client through a substituted crypto/rand.Reader; padseed seeds the global math/rand the client's
 // padding comes from, pad16 = the 16 bytes that seed yields (what the Lean model is given).
 // server secrets: RSA key (n, e, d), server_nonce, the primes p < q, g, a, dh_prime, server_time, the
-// source of its answer padding, whether it sends dh_prime / g_a minimally, further fingerprints.
+// source of its answer padding, whether it sends dh_prime / g_a minimally, further fingerprints (before
+// and after its own).
 //
 // Result line (both sides): outcome, TL bodies of the client's three requests, number of encrypted
 // frames seen before CreateConnection returned, client auth key / salt / encrypted / service mode,
@@ -24,6 +29,7 @@ import (
 	"encoding/binary"
 	"fmt"
 	"math/big"
+	"math/bits"
 	"strconv"
 	"strings"
 )
@@ -38,6 +44,12 @@ func (c *hsCase) op(tag string) string {
 	var xf []string
 	for _, f := range c.S.ExtraFps {
 		xf = append(xf, strconv.FormatUint(f, 10))
+	}
+	if len(c.S.LaterFps) > 0 {
+		xf = append(xf, "*")
+		for _, f := range c.S.LaterFps {
+			xf = append(xf, strconv.FormatUint(f, 10))
+		}
 	}
 	min := "0"
 	if c.S.Minimal {
@@ -87,12 +99,21 @@ func c06Parse(op []string) (*hsCase, bool) {
 		c.S.Pad = parseBytes(op[17])
 		c.S.Minimal = op[18] == "1"
 		if op[19] != "-" {
+			own := false
 			for _, t := range strings.Split(op[19], ",") {
+				if t == "*" && !own {
+					own = true
+					continue
+				}
 				f, err := strconv.ParseUint(t, 10, 64)
 				if err != nil {
 					return
 				}
-				c.S.ExtraFps = append(c.S.ExtraFps, f)
+				if own {
+					c.S.LaterFps = append(c.S.LaterFps, f)
+				} else {
+					c.S.ExtraFps = append(c.S.ExtraFps, f)
+				}
 			}
 		}
 		ok = len(c.D.Nonce) == 16 && len(c.D.NewNonce) == 32 && len(c.D.B) == 256 && len(c.S.ServerNonce) == 16 &&
@@ -177,6 +198,27 @@ func c06Gen(g *G) {
 		c.S.Minimal = gv%2 == 1
 		g.Emit(c.op(fmt.Sprintf("honest:g%d", gv)), "honest")
 	}
+	// (a2) a server with several keys: the client's one alone, last, first, in the middle of the list, between
+	// several; a neighbour that differs from it in one bit / is its byte-reversal (the client must name ITS
+	// key's fingerprint in req_DH_params, wherever it stands)
+	own := hsFingerprint(&key.PublicKey)
+	for _, pos := range []struct {
+		name          string
+		before, after []uint64
+	}{
+		{"only", nil, nil},
+		{"last", []uint64{r.U64()}, nil},
+		{"first", nil, []uint64{r.U64()}},
+		{"middle", []uint64{r.U64()}, []uint64{r.U64()}},
+		{"first-of-many", nil, []uint64{r.U64(), r.U64(), r.U64()}},
+		{"among-many", []uint64{r.U64(), r.U64()}, []uint64{r.U64(), r.U64(), r.U64()}},
+		{"near-miss-neighbours", []uint64{own ^ 1}, []uint64{own ^ 1<<63, bits.ReverseBytes64(own)}},
+		{"zero-and-max-neighbours", []uint64{0}, []uint64{1<<64 - 1}},
+	} {
+		c := hsRandomCase(r, key)
+		c.S.ExtraFps, c.S.LaterFps = pos.before, pos.after
+		g.Emit(c.op("honest:fingerprint-"+pos.name), "honest", "fingerprints", fmt.Sprintf("fingerprints:before=%d,after=%d", len(pos.before), len(pos.after)))
+	}
 	// (b) every field through its leading-zero corners
 	for _, f := range c06Fields {
 		for z := 0; z <= 2; z++ {
@@ -218,7 +260,13 @@ func c06Gen(g *G) {
 		if i%2 == 1 {
 			k = key2
 		}
-		g.Emit(hsRandomCase(r, k).op("honest:random"), "honest")
+		c := hsRandomCase(r, k)
+		// the server's own fingerprint anywhere in the list it offers
+		if n := len(c.S.ExtraFps); n > 0 {
+			cut := r.Intn(n + 1)
+			c.S.ExtraFps, c.S.LaterFps = c.S.ExtraFps[:cut], append([]uint64{}, c.S.ExtraFps[cut:]...)
+		}
+		g.Emit(c.op("honest:random"), "honest", fmt.Sprintf("fingerprints:before=%d,after=%d", len(c.S.ExtraFps), len(c.S.LaterFps)))
 	}
 }
 
